@@ -21,8 +21,9 @@ RULE = ("random Hermitian models (1-3 WFs; Ham,AA,BB,CC,FF,GG,OO (+spin matrices
         "(1..12 points, spacing 0.01..0.5, placed below / inside / above / spanning the band range), formula in "
         "{Identity, Omega, Spin, InvMass, DerOmega, VelVel, VelOmega, Morb_Hpm (non-additive)}, derivative order "
         "0..3, degen_thresh in {-1, 1e-4, 1e-2}, band selections, k-resolved variants; non-trivial = at least one "
-        "band group changes occupation inside the (extended) Fermi grid and the result is non-zero; labels count "
-        "degenerate groups (double_spin or near-degenerate pairs merged by the threshold); distinct = distinct case")
+        "band group changes occupation inside the (extended) Fermi grid, at least one degenerate group (double_spin "
+        "pair or near-degenerate bands merged by the threshold) exists and the result is non-zero (sub cumdos: the "
+        "cumulative DOS steps inside the grid); distinct = distinct generated case")
 ASSUMPTIONS = ["tetra=False for the sea/surface semantics (tetrahedron weights are C14); CumDOS with tetra=True is "
                "only checked for monotonicity, range and its limits",
                "Fermi grid offset chosen so that no group mean lies within 1e-7 of an (extended) grid value; gaps "
@@ -284,7 +285,7 @@ def check_sea(case):
     allm = np.concatenate(ref.means)
     crossing = bool(np.any((allm > Ef[0]) & (allm <= Ef[-1]))) or bool(np.any(allm <= Ef[-1]) and np.any(allm > Ef[-1]))
     nonzero = np.max(np.abs(got), initial=0) > 1e3 * floor
-    return ok(crossing and nonzero, fname, case["spin"], f"thr={ref.thr}", case["egrid"]["mode"],
+    return ok(crossing and nonzero and ref.ndegen > 0, fname, case["spin"], f"thr={ref.thr}", case["egrid"]["mode"],
               "degenerate-groups" if ref.ndegen else "no-degenerate-group",
               "near-degenerate" if ref.cond > 1 else None, "crossing" if crossing else "no-crossing",
               f"nEf={'1' if n == 1 else '2-4' if n < 5 else '5+'}", "nonzero" if nonzero else "zero",
@@ -351,7 +352,7 @@ def check_surface(case):
     allm = np.concatenate(ref.means)
     crossing = bool(np.any((allm > Eext[0]) & (allm <= Eext[-1])))
     nonzero = np.max(np.abs(got), initial=0) > 1e3 * floor
-    return ok(crossing and nonzero, fname, f"fder={nder}", case["spin"], f"thr={ref.thr}", case["egrid"]["mode"],
+    return ok(crossing and nonzero and ref.ndegen > 0, fname, f"fder={nder}", case["spin"], f"thr={ref.thr}", case["egrid"]["mode"],
               "degenerate-groups" if ref.ndegen else "no-degenerate-group",
               "select" if select is not None else "all-bands",
               "near-degenerate" if ref.cond > 1 else None, "crossing" if crossing else "no-crossing",
@@ -440,7 +441,7 @@ def check_kres_save(case):
 # wall-clock budgets can be stretched on an overloaded machine (never changes which cases are generated)
 import os as _os
 _BS = float(_os.environ.get("VERIF_BUDGET_SCALE", "1") or 1)
-SUBS = [Sub("sea", sea_case_st(), check_sea, quick=40, thorough=1600, budget_quick=60 * _BS, budget_thorough=420 * _BS),
-        Sub("surface", surf_case_st(), check_surface, quick=48, thorough=2000, budget_quick=60 * _BS, budget_thorough=420 * _BS),
-        Sub("cumdos", cumdos_case_st(), check_cumdos, quick=16, thorough=480, budget_quick=50 * _BS, budget_thorough=300 * _BS),
-        Sub("kres_save", kres_case_st(), check_kres_save, quick=16, thorough=320, budget_quick=40 * _BS, budget_thorough=200 * _BS)]
+SUBS = [Sub("sea", sea_case_st(), check_sea, quick=40, thorough=4000, budget_quick=60 * _BS, budget_thorough=420 * _BS),
+        Sub("surface", surf_case_st(), check_surface, quick=48, thorough=4800, budget_quick=60 * _BS, budget_thorough=420 * _BS),
+        Sub("cumdos", cumdos_case_st(), check_cumdos, quick=16, thorough=1600, budget_quick=50 * _BS, budget_thorough=300 * _BS),
+        Sub("kres_save", kres_case_st(), check_kres_save, quick=16, thorough=480, budget_quick=40 * _BS, budget_thorough=200 * _BS)]
